@@ -117,6 +117,59 @@ fn run_cmd_limit(cmd: &mut Command, stdin: Option<&[u8]>, limit: Duration) -> Ru
     RunOut { code, signal, stdout, stderr, timed_out, wall: started.elapsed() }
 }
 
+/// Like `run_cmd`, but stdout goes to the file / device `to` (e.g. `/dev/full`) and stdin is `stdin_from`
+/// (a file or directory opened read-only; `None` = /dev/null).  `stdout` of the result stays empty.
+pub fn run_cmd_redirected(cmd: &mut Command, to: Option<&Path>, stdin_from: Option<&Path>) -> RunOut {
+    let mut limit = WATCHDOG;
+    for attempt in 0..2 {
+        let started = Instant::now();
+        match to {
+            Some(p) => match std::fs::OpenOptions::new().write(true).open(p) {
+                Ok(f) => { cmd.stdout(f); }
+                Err(e) => return RunOut { stderr: format!("cannot open {}: {}", p.display(), e).into_bytes(), ..Default::default() },
+            },
+            None => { cmd.stdout(Stdio::piped()); }
+        }
+        match stdin_from {
+            Some(p) => match std::fs::File::open(p) {
+                Ok(f) => { cmd.stdin(f); }
+                Err(e) => return RunOut { stderr: format!("cannot open {}: {}", p.display(), e).into_bytes(), ..Default::default() },
+            },
+            None => { cmd.stdin(Stdio::null()); }
+        }
+        cmd.stderr(Stdio::piped());
+        let mut child = match cmd.spawn() {
+            Ok(c) => c,
+            Err(e) => return RunOut { stderr: format!("spawn failed: {}", e).into_bytes(), ..Default::default() },
+        };
+        let so = child.stdout.take();
+        let mut se = child.stderr.take().unwrap();
+        let (stdout, stderr, (code, signal, timed_out)) = std::thread::scope(|s| {
+            let t1 = s.spawn(move || {
+                let mut v = vec![];
+                if let Some(mut so) = so { let _ = so.read_to_end(&mut v); }
+                v
+            });
+            let t2 = s.spawn(move || {
+                let mut v = vec![];
+                let _ = se.read_to_end(&mut v);
+                v
+            });
+            let w = wait_child(child, started, limit);
+            (t1.join().unwrap(), t2.join().unwrap(), w)
+        });
+        // release our copies of the redirected descriptors
+        cmd.stdout(Stdio::null()).stdin(Stdio::null());
+        let out = RunOut { code, signal, stdout, stderr, timed_out, wall: started.elapsed() };
+        if !out.timed_out || attempt == 1 {
+            return out;
+        }
+        RETRIES.fetch_add(1, std::sync::atomic::Ordering::SeqCst);
+        limit = WATCHDOG * 2;
+    }
+    unreachable!()
+}
+
 extern "C" {
     fn fcntl(fd: i32, cmd: i32, ...) -> i32;
 }
